@@ -19,6 +19,13 @@ pub struct Knobs {
     pub push_interval_ms: u32,
     /// Virtual time to let pass before the first operation (phase on the 100 ms grid).
     pub pre_advance_us: u64,
+    /// A slow handler: probability (per mille) that a schedule point on the request path of a
+    /// handler (not inside an actor or the push loop) stalls for up to `long_stall_max_us`
+    /// (seconds: a starved or paused request task).
+    #[serde(default)]
+    pub long_stall_permille: u32,
+    #[serde(default)]
+    pub long_stall_max_us: u64,
 }
 
 #[derive(Serialize, Deserialize, Clone, Debug, PartialEq)]
